@@ -355,22 +355,27 @@ CACHE_DIR = core.VERIF / ".cache"
 
 
 def run_real_cached(case):
-    """`run_real` through a file cache keyed by SHA-256(source files + YAML + case).
+    """`run_real` through a file cache keyed by SHA-256(source files + YAML + case), gzip-compressed.
+    Bounded: `core.prune_cache()` (called by runcheck) deletes the observations of a previous source state.
     `VERIF_NOCACHE=1` disables it."""
+    import gzip
+
     if os.environ.get("VERIF_NOCACHE"):
         return run_real(case)
     key = source_key(case)
-    path = CACHE_DIR / (key + ".json")
+    path = CACHE_DIR / (key + ".json.gz")
     if path.exists():
         try:
-            return json.loads(path.read_text())
+            with gzip.open(path, "rt") as f:
+                return json.load(f)
         except Exception:
             pass
     obs = run_real(case)
     try:
         CACHE_DIR.mkdir(parents=True, exist_ok=True)
-        tmp = path.with_suffix(".tmp%d" % os.getpid())
-        tmp.write_text(json.dumps(obs))
+        tmp = CACHE_DIR / (key + ".tmp%d" % os.getpid())
+        with gzip.open(tmp, "wt", compresslevel=1) as f:
+            json.dump(obs, f)
         os.replace(tmp, path)
     except Exception:
         pass
